@@ -122,3 +122,13 @@ Theorem C18_json_verdict_depends_on_depth_only :
       jwf float_ok v = true -> jwf float_ok w = true -> val_end tail -> jdepth v = jdepth w ->
       jok (snd (json_value (jwrite fmt_f64 v ++ tail))) = jok (snd (json_value (jwrite fmt_f64 w ++ tail))).
 Proof. exact json_verdict_depends_on_depth_only. Qed.
+
+(* The JSON limit with the concrete model of the float spelling
+   (theories/JsonFloatModel.v, JsonFloatProofs.v): no premise is left. *)
+From XtModel Require Import JsonFloatModel JsonFloatProofs.
+
+Theorem C18_json_limit_exact_with_floats :
+  forall (v : jval) (tail : bytes),
+    jwf ryu_ok v = true -> val_end tail ->
+    (jok (snd (json_value (jwrite json_f64 v ++ tail))) = true <-> jdepth v < JSON_DEPTH).
+Proof. exact (json_value_limit_exact json_f64 ryu_ok json_f64_reads json_f64_head). Qed.
